@@ -57,7 +57,7 @@ def variants():
     # behaviour-preserving refactorings written by independent sub-agents (DESIGN §13): each must stay silent for the
     # property it was written for and for every property whose check it once made fail
     for sub, amap, tag in (("refactors", "refactor_alarms.json", "refactor"), ("refactors2", "refactor2_alarms.json", "refactor2"),
-                           ("refactors3", "refactor3_alarms.json", "refactor3")):
+                           ("refactors3", "refactor3_alarms.json", "refactor3"), ("refactors4", "refactor4_alarms.json", "refactor4")):
         rdir = os.path.join(SELF, sub)
         alarms = {}
         ap = os.path.join(SELF, amap)
